@@ -49,6 +49,9 @@ class Work:
             if pid.isdigit() and not os.path.exists("/proc/" + pid):
                 shutil.rmtree(old, ignore_errors=True)
         os.makedirs(self.dir)
+        # the specifications as they are when the check starts (a check is not disturbed by edits made while it runs)
+        self.specs = os.path.join(self.dir, "specs")
+        shutil.copytree(SPECS, self.specs)
         self.keep = keep
         self.t0 = time.time()
         self.bin = None
@@ -108,7 +111,7 @@ class Work:
     def tlc(self, module, cfg_text, name, workers=8, extra=None, timeout=900, simulate=None, expect_violation=False, jvm=None):
         d = self.path("tlc-" + name)
         os.makedirs(d, exist_ok=True)
-        for f in glob.glob(os.path.join(SPECS, "*.tla")):
+        for f in glob.glob(os.path.join(self.specs, "*.tla")):
             shutil.copy(f, d)
         with open(os.path.join(d, name + ".cfg"), "w") as fh:
             fh.write(cfg_text)
